@@ -142,6 +142,8 @@ pub fn render(m: &Msg, fmt: Fmt, var: JsonVariant) -> String {
             }
             if var == JsonVariant::Extra {
                 pairs.push(("x_unknown_member", "{\"a\":[1,2]}".to_string()));
+                // RFC 7515's unprotected header: unsigned, so nothing in it may matter (a kid, a list, an alg)
+                pairs.push(("header", "{\"kid\":\"kid-b\",\"alg\":\"none\",\"disclosures\":[],\"kb_jwt\":null}".to_string()));
             }
             obj(&pairs)
         }
